@@ -153,7 +153,7 @@ theorem blockWithReceipts_eq {ver : Ver} {nd : Node} {id : BlockId}
     (hv : ¬ (ver = .v8 ∧ id = .l1Accepted)) :
     blockWithReceiptsStored ver nd id =
       match resolvedBlock nd id with
-      | some b => .blockReceipts (hdrOf nd b) (b.txs.map (fun t => (t, finality b.number nd.l1)))
+      | some b => .blockReceipts (hdrOf nd b) (b.txs.map (fun t => (t, finality b.number (statusL1 nd))))
       | none => .err .blockNotFound := by
   unfold blockWithReceiptsStored
   rw [blockById_eq ver nd id hv]
@@ -374,7 +374,7 @@ theorem transactionByHash_notFound_iff {nd : Node} {h : Nat} (wf : WellFormed nd
 
 theorem transactionReceipt_sound {nd : Node} {h n bh : Nat} {t : Tx} {f : Fin} (wf : WellFormed nd)
     (ha : transactionReceipt nd h = .receipt t f n bh) :
-    t.hash = h ∧ f = finality n nd.l1 ∧ ∃ b, nd.chain[n]? = some b ∧ t ∈ b.txs ∧ bh = b.hash := by
+    t.hash = h ∧ f = finality n (statusL1 nd) ∧ ∃ b, nd.chain[n]? = some b ∧ t ∈ b.txs ∧ bh = b.hash := by
   unfold transactionReceipt at ha
   cases hf : numberAndIndexByTxHash nd h with
   | none => simp [hf] at ha
@@ -400,7 +400,7 @@ theorem transactionReceipt_notFound_iff {nd : Node} {h : Nat} (wf : WellFormed n
 
 theorem transactionStatus_sound {nd : Node} {h : Nat} {f : Fin} {r : Bool} (wf : WellFormed nd)
     (ha : transactionStatus nd h = .status f r) :
-    ∃ n b t, nd.chain[n]? = some b ∧ t ∈ b.txs ∧ t.hash = h ∧ f = finality n nd.l1 ∧ r = t.reverted := by
+    ∃ n b t, nd.chain[n]? = some b ∧ t ∈ b.txs ∧ t.hash = h ∧ f = finality n (statusL1 nd) ∧ r = t.reverted := by
   unfold transactionStatus at ha
   cases hf : numberAndIndexByTxHash nd h with
   | none => simp [hf] at ha
@@ -1005,8 +1005,8 @@ theorem findTx_complete {nd : Node} {n i : Nat} {b : Block} {t : Tx} (wf : WellF
 theorem by_hash_complete {nd : Node} {n i : Nat} {b : Block} {t : Tx} (wf : WellFormed nd)
     (hd : TxHashesDistinct nd) (hb : nd.chain[n]? = some b) (ht : b.txs[i]? = some t) :
     transactionByHash nd t.hash = .tx t ∧
-      transactionReceipt nd t.hash = .receipt t (finality n nd.l1) n b.hash ∧
-      transactionStatus nd t.hash = .status (finality n nd.l1) t.reverted := by
+      transactionReceipt nd t.hash = .receipt t (finality n (statusL1 nd)) n b.hash ∧
+      transactionStatus nd t.hash = .status (finality n (statusL1 nd)) t.reverted := by
   have hf := findTx_complete wf hd hb ht
   simp [transactionByHash, txByHash, transactionReceipt, transactionStatus, hf, txByNumberAndIndex,
     txAndBlockHash, blockByNumber, hb, ht]
